@@ -407,7 +407,7 @@ def roleLabel : Role → Option String
 def roleWF (F : List Nat) : Role → Prop
   | .imp a b => a ≠ b ∧ a ∈ F ∧ b ∈ F
   | .app a b => a ≠ b ∧ a ∈ F ∧ b ∈ F
-  | .ctor _ c => c.args.Nodup ∧ ∀ v ∈ c.args, v ∈ F
+  | .ctor _ c => c.args.Nodup ∧ (∀ v ∈ c.args, v ∈ F) ∧ c.body = none
   | .p1 a b => a ≠ b ∧ a ∈ F ∧ b ∈ F
   | .p2 a b c => (a ≠ b ∧ a ≠ c ∧ b ≠ c) ∧ a ∈ F ∧ b ∈ F ∧ c ∈ F
   | .mp a b => a ≠ b ∧ a ∈ F ∧ b ∈ F
@@ -645,7 +645,7 @@ theorem role_of_syntax (l : String) (t : MTerm) (h : syntaxShape nm.consts fs l 
             · exact hres'.2 h3
           have hno : ¬ (s = "\\imp" ∨ s = "\\app") := by simp [h1, h2]
           refine ⟨.con (nm.consts.idxOf s) (vs.map fun v => .var (nm.vars.idxOf v)),
-            .ctor l ⟨nm.consts.idxOf s, vs.map nm.vars.idxOf⟩, ?_, ?_, ?_, ⟨nodup_map_idxOf _ vs hnd hvV, ?_⟩, ?_, ?_,
+            .ctor l { sym := nm.consts.idxOf s, args := vs.map nm.vars.idxOf }, ?_, ?_, ?_, ⟨nodup_map_idxOf _ vs hnd hvV, ?_, rfl⟩, ?_, ?_,
             by intro l' c e; cases e; exact ⟨hl1, hl2⟩⟩
           · unfold termOf
             simp [h1, h2, h3, Names.con?, hK, termsOf_mvs nm vs hvV]
